@@ -120,6 +120,7 @@ type Lit struct {
 	Enum  *Def
 	Item  *EnumItem
 	Const *Constant
+	Field *Field // struct literal key: the field meant (its current name is rendered)
 }
 
 type Constant struct {
